@@ -58,7 +58,7 @@ func parseCallOf(v ssa.Value) (*ssa.Call, bool) {
 
 // RuleNarrow: no integer is narrowed without a range proof.
 func (c *Ctx) RuleNarrow() *Result {
-	res := &Result{Rule: "NARROW", MinInst: 3}
+	res := &Result{Rule: "NARROW", MinInst: 1}
 	for _, fn := range c.P.RepoFns {
 		allInstrs(fn, func(in ssa.Instruction) {
 			cv, ok := in.(*ssa.Convert)
@@ -239,6 +239,13 @@ func (c *Ctx) RuleSiblingRuleId() *Result {
 						}
 					}
 					res.bad(key, c.P.InstrPos(call), "the chain offset handed on has an unrecognised origin")
+				case *ssa.Extract, *ssa.Call:
+					// the result of a repository helper that does the guarded parse
+					if why := c.helperReturnsParsedOffset(a); why == "" {
+						res.ok(key, c.P.InstrPos(call), "returned by a helper whose every non-constant result is converted from the guarded ParseUint result (NARROW)")
+					} else {
+						res.bad(key, c.P.InstrPos(call), "the chain offset handed on "+why)
+					}
 				default:
 					res.bad(key, c.P.InstrPos(call), fmt.Sprintf("the chain offset handed on has an unrecognised origin (%T)", a))
 				}
@@ -246,6 +253,57 @@ func (c *Ctx) RuleSiblingRuleId() *Result {
 		})
 	}
 	return res
+}
+
+// helperReturnsParsedOffset: v is (a result of) a call of a repository function
+// all of whose returned values at that index are constants or conversions of a
+// ParseUint result.
+func (c *Ctx) helperReturnsParsedOffset(v ssa.Value) string {
+	idx := 0
+	var call *ssa.Call
+	switch x := v.(type) {
+	case *ssa.Extract:
+		idx = x.Index
+		call, _ = x.Tuple.(*ssa.Call)
+	case *ssa.Call:
+		call = x
+	}
+	if call == nil {
+		return "has an unrecognised origin"
+	}
+	sf := staticFn(&call.Call)
+	if sf == nil || !c.P.IsRepoFn(sf) || len(sf.Blocks) == 0 {
+		return "comes from a call that cannot be followed"
+	}
+	why := ""
+	allInstrs(sf, func(in ssa.Instruction) {
+		r, ok := in.(*ssa.Return)
+		if !ok || idx >= len(r.Results) || why != "" {
+			return
+		}
+		var walk func(o ssa.Value, d int)
+		walk = func(o ssa.Value, d int) {
+			switch y := o.(type) {
+			case *ssa.Const:
+			case *ssa.Convert:
+				if _, ok := parseCallOf(y.X); !ok {
+					why = "is returned by " + load.FnName(sf) + " without going through the guarded 8-bit parse"
+				}
+			case *ssa.Phi:
+				if d > 3 {
+					why = "is followed too deep in " + load.FnName(sf)
+					return
+				}
+				for _, e := range y.Edges {
+					walk(e, d+1)
+				}
+			default:
+				why = fmt.Sprintf("has an unrecognised origin in %s (%T)", load.FnName(sf), o)
+			}
+		}
+		walk(r.Results[idx], 0)
+	})
+	return why
 }
 
 // canonicalRegion renders the SSA of fn between instruction `from` and
